@@ -1,8 +1,8 @@
 (** Extraction of the C05 specification and models (ExtrOcamlBasic only; Z stays the extracted datatype). *)
-Require Import H4.CompSpec H4.CompRleModel H4.CompCodecModel.
+Require Import H4.CompSpec H4.CompRleModel H4.CompCodecModel H4.CompBitbufModel.
 Require Extraction.
 Require ExtrOcamlBasic.
 Extraction "../extract/gen/comp_model.ml" s_run b_run elt_empty bitelt_new nbit_params_ok
   rle_write_session rle_decode_all rle_run_reads rle_dec_init
   nbit_encode nbit_decode skp_encode skp_decode hdr_record hdr_encode hdr_decode hdr_query_len
-  bw_write bw_flush bitw_init bitr_init br_read br_seek.
+  bw_write bw_flush bitw_init bitr_init br_read br_seek bb_start bb_readbits bb_seek.
